@@ -88,6 +88,27 @@ def run(ctx, rep):
             rep.ob('C05.4', '%s:%s' % (rule, site), ok, detail)
             nslice += 1
     rep.floor('slice write obligations', nslice, 4)
+    # C05.5: a zeroing request of a new data cluster completes under the per-cluster guard it was created under:
+    # otherwise it can land after another writer's data was written *and synced*
+    rep.rule('C05.5', 'the zeroing request created under the per-cluster write guard is awaited before the guard is released')
+    from ..locks import LockDomain
+    from .. import api
+    ld = LockDomain(Program(f))
+    lip = Interp(ld.p if hasattr(ld, 'p') else Program(f), ld)
+    for e in api.CONCURRENT_OPS:
+        lip.run(api.dev_method(f, e))
+    nz = 0
+    for (fn, where, by), e in sorted(ld.poll_held.items()):
+        if 'fallocate' not in fn:
+            continue
+        nz += 1
+        rep.ob('C05.5', '%s created in %s at %s' % (fn, by, where), e['ok'], 'awaited under the guard in %d context(s)' % e['n'])
+        if not e['ok']:
+            rep.violation('C05.5', 'C05.5:%s:%s' % (by, fn), where,
+                          'the zeroing request %s of a new data cluster is created in %s under the per-cluster write guard but '
+                          'awaited after the guard was released: it can complete after another writer of the same cluster has '
+                          'written and synced its block, and zero it' % (fn, by))
+    rep.floor('zeroing requests created under a per-cluster guard', nz, 1)
     # C05.2
     P = Program(f)
     impls = [im for im in f.impls if im.get('trait') == 'ops::Qcow2IoOps']
